@@ -396,6 +396,107 @@ pub fn png_unpredict(data: &[u8], columns: usize, colors: usize, bpc: usize) -> 
     Ok(out)
 }
 
+/// LZWDecode (ISO 32000-1 7.4.4): MSB-first codes of 9..12 bits, clear-table 256, end-of-data 257.
+pub fn lzw_decode(data: &[u8], early_change: bool) -> R<Vec<u8>> {
+    let mut out = Vec::new();
+    let mut table: Vec<Vec<u8>> = Vec::new();
+    let reset = |t: &mut Vec<Vec<u8>>| {
+        t.clear();
+        for i in 0..256u16 {
+            t.push(vec![i as u8]);
+        }
+        t.push(vec![]);
+        t.push(vec![]);
+    };
+    reset(&mut table);
+    let (mut acc, mut nbits, mut pos) = (0u32, 0u32, 0usize);
+    let mut width = 9u32;
+    let mut prev: Option<Vec<u8>> = None;
+    loop {
+        while nbits < width {
+            let Some(&b) = data.get(pos) else { return Ok(out) }; // missing EOD: take what is there
+            acc = (acc << 8) | b as u32;
+            nbits += 8;
+            pos += 1;
+        }
+        let code = ((acc >> (nbits - width)) & ((1 << width) - 1)) as usize;
+        nbits -= width;
+        acc &= (1 << nbits) - 1;
+        if code == 256 {
+            reset(&mut table);
+            width = 9;
+            prev = None;
+            continue;
+        }
+        if code == 257 {
+            return Ok(out);
+        }
+        let entry = if code < table.len() {
+            table[code].clone()
+        } else if code == table.len() && prev.is_some() {
+            let mut e = prev.clone().unwrap();
+            e.push(e[0]);
+            e
+        } else {
+            return Err(format!("LZW: code {code} beyond the table ({} entries)", table.len()));
+        };
+        out.extend_from_slice(&entry);
+        if let Some(mut p) = prev.take() {
+            p.push(entry[0]);
+            table.push(p);
+        }
+        prev = Some(entry);
+        let next = table.len() as u32 + early_change as u32;
+        if next >= (1 << width) && width < 12 {
+            width += 1;
+        }
+    }
+}
+
+pub fn ascii85_decode(data: &[u8]) -> R<Vec<u8>> {
+    let mut out = Vec::new();
+    let mut group: Vec<u32> = Vec::new();
+    let mut i = 0;
+    while i < data.len() {
+        let c = data[i];
+        i += 1;
+        if is_ws(c) {
+            continue;
+        }
+        if c == b'~' {
+            break;
+        }
+        if c == b'z' && group.is_empty() {
+            out.extend_from_slice(&[0, 0, 0, 0]);
+            continue;
+        }
+        if !(b'!'..=b'u').contains(&c) {
+            return Err(format!("ASCII85: bad character {c:#x}"));
+        }
+        group.push((c - b'!') as u32);
+        if group.len() == 5 {
+            let v = group.iter().fold(0u64, |a, &d| a * 85 + d as u64);
+            if v > u32::MAX as u64 {
+                return Err("ASCII85: group overflow".into());
+            }
+            out.extend_from_slice(&(v as u32).to_be_bytes());
+            group.clear();
+        }
+    }
+    if !group.is_empty() {
+        if group.len() == 1 {
+            return Err("ASCII85: single trailing character".into());
+        }
+        let n = group.len();
+        while group.len() < 5 {
+            group.push(84);
+        }
+        let v = group.iter().fold(0u64, |a, &d| a * 85 + d as u64) as u32;
+        out.extend_from_slice(&v.to_be_bytes()[..n - 1]);
+    }
+    Ok(out)
+}
+
 fn int_of(d: &MDict, k: &[u8]) -> Option<i64> {
     match dict_get(d, k) {
         Some(MObj::Int(i)) => Some(*i),
@@ -403,41 +504,59 @@ fn int_of(d: &MDict, k: &[u8]) -> Option<i64> {
     }
 }
 
-/// Decode the body of a structural stream (xref stream, object stream).
+/// Decode the body of a structural stream (xref stream, object stream): filter
+/// chains over FlateDecode, LZWDecode and ASCII85Decode, `DecodeParms` as a
+/// dictionary (single filter) or as an array parallel to the filters.
 fn decode_structural(d: &MDict, body: &[u8]) -> R<Vec<u8>> {
-    let filter = match dict_get(d, b"Filter") {
+    let filters: Vec<Vec<u8>> = match dict_get(d, b"Filter") {
         None => return Ok(body.to_vec()),
-        Some(MObj::Name(n)) => n.clone(),
-        Some(MObj::Array(a)) if a.len() == 1 => match &a[0] {
-            MObj::Name(n) => n.clone(),
-            _ => return Err("Filter array element is not a name".into()),
-        },
-        Some(MObj::Array(a)) if a.is_empty() => return Ok(body.to_vec()),
+        Some(MObj::Name(n)) => vec![n.clone()],
+        Some(MObj::Array(a)) => {
+            let mut v = Vec::new();
+            for x in a {
+                match x {
+                    MObj::Name(n) => v.push(n.clone()),
+                    _ => return Err("Filter array element is not a name".into()),
+                }
+            }
+            v
+        }
         _ => return Err("unsupported Filter on a structural stream".into()),
     };
-    if filter != b"FlateDecode" {
-        return Err(format!("unsupported filter /{} on a structural stream", String::from_utf8_lossy(&filter)));
-    }
-    let data = inflate(body)?;
-    let parms = match dict_get(d, b"DecodeParms") {
-        Some(MObj::Dict(p)) => Some(p.clone()),
-        Some(MObj::Array(a)) if a.len() == 1 => match &a[0] {
-            MObj::Dict(p) => Some(p.clone()),
-            MObj::Null => None,
-            _ => return Err("bad DecodeParms".into()),
-        },
-        None => None,
-        _ => return Err("bad DecodeParms".into()),
+    let parms: Vec<Option<MDict>> = match dict_get(d, b"DecodeParms") {
+        None => vec![None; filters.len()],
+        Some(MObj::Dict(p)) if filters.len() == 1 => vec![Some(p.clone())],
+        Some(MObj::Array(a)) if a.len() == filters.len() => a
+            .iter()
+            .map(|x| match x {
+                MObj::Dict(p) => Ok(Some(p.clone())),
+                MObj::Null => Ok(None),
+                _ => Err("bad DecodeParms element".to_string()),
+            })
+            .collect::<R<Vec<_>>>()?,
+        _ => return Err("DecodeParms does not match Filter".into()),
     };
-    if let Some(p) = parms {
-        let pred = int_of(&p, b"Predictor").unwrap_or(1);
-        if pred >= 10 {
-            let columns = int_of(&p, b"Columns").unwrap_or(1) as usize;
-            let colors = int_of(&p, b"Colors").unwrap_or(1) as usize;
-            let bpc = int_of(&p, b"BitsPerComponent").unwrap_or(8) as usize;
-            return png_unpredict(&data, columns, colors, bpc);
-        } else if pred != 1 {
-            return Err("unsupported predictor".into());
+    let mut data = body.to_vec();
+    for (f, p) in filters.iter().zip(parms) {
+        data = match f.as_slice() {
+            b"FlateDecode" => inflate(&data)?,
+            b"LZWDecode" => {
+                let early = p.as_ref().and_then(|p| int_of(p, b"EarlyChange")).unwrap_or(1) != 0;
+                lzw_decode(&data, early)?
+            }
+            b"ASCII85Decode" => ascii85_decode(&data)?,
+            other => return Err(format!("unsupported filter /{} on a structural stream", String::from_utf8_lossy(other))),
+        };
+        if let Some(p) = p {
+            let pred = int_of(&p, b"Predictor").unwrap_or(1);
+            if pred >= 10 {
+                let columns = int_of(&p, b"Columns").unwrap_or(1) as usize;
+                let colors = int_of(&p, b"Colors").unwrap_or(1) as usize;
+                let bpc = int_of(&p, b"BitsPerComponent").unwrap_or(8) as usize;
+                data = png_unpredict(&data, columns, colors, bpc)?;
+            } else if pred != 1 {
+                return Err("unsupported predictor".into());
+            }
         }
     }
     Ok(data)
